@@ -69,6 +69,17 @@ Compared
          -> ctx.correspondence_broken("compile-generator", …)
 A real-vs-evaluator difference is the business of checks/parts/evaldiff.py (C02 violation); here it
 shows up as (2) or (3).  Env COMPILETIE_RUN3 overrides the level-3 runner binary.
+
+LEVEL 4 (closures): the same pipeline and the same comparisons (whole code array, exception table, entry
+and function addresses; result, prints, exception, peak sp, instruction count; evaluator) with the engine
+build/ocaml/compile4 = coq/Src/Compile4.v + coq/VM/ValueVM4.v (Compile3.v + nested functions and
+closures: free-variable lists of front/gencode.c, ALLOC / REWRITE runs, FUNC_OBJ … GLOBAL_VEC n;
+ID_FUNC_ADDR closures, ID_GLOBAL / COPYGLOB, callee expressions, bodies of nested functions breadth-first
+after the top-level ones; typed heap cells and the register gp in the VM).  The generator
+(harness/ocaml/compile4/cgen.ml) makes programs with runs of sibling functions, function expressions,
+captured parameters / let / var at any depth, function values stored, passed, returned and called after
+the definer returned, counters shared between closures, recursive and mutually recursive nested
+functions, catch clauses in nested functions.  Env COMPILETIE_RUN4 overrides the runner binary.
 """
 import concurrent.futures
 import os
@@ -80,6 +91,7 @@ from lib import common, vmcheck
 
 RUN = os.environ.get("COMPILETIE_RUN") or os.path.join(common.BUILD, "ocaml", "compile", "run")
 RUN3 = os.environ.get("COMPILETIE_RUN3") or os.path.join(common.BUILD, "ocaml", "compile3", "run")
+RUN4 = os.environ.get("COMPILETIE_RUN4") or os.path.join(common.BUILD, "ocaml", "compile4", "run")
 NPROC = 16
 
 EXC_NAMES = {1: "division_by_zero", 2: "wrong_array_size", 3: "index_out_of_bounds", 4: "invalid_domain",
@@ -288,7 +300,7 @@ def meaningful3(names):
         elif s in ("ID_LOCAL", "SLIDE"):
             use[i] = 2
         elif s in ("JUMPZ", "JUMP", "MARK", "ID_GLOBAL", "GLOBAL_VEC", "ID_FUNC_ADDR", "BUILD_IN", "CLEAR_STACK",
-                   "ALLOC", "REWRITE"):
+                   "ALLOC", "REWRITE"):                 # COPYGLOB, FUNC_OBJ, CALL … have no operand
             use[i] = 1
         else:
             use[i] = 0
@@ -325,10 +337,12 @@ def parse_model3(path):
 
 
 def run_compiletie3(ctx, n, seed, level=3, keep=None):
-    ok, log = common.ocaml_build("compile3")
-    if not ok or not os.path.exists(RUN3):
-        ctx.correspondence_broken("compile-engine-build", log[-2000:])
-        return None
+    engine, runner = ("compile4", RUN4) if level == 4 else ("compile3", RUN3)
+    if not (level == 4 and os.environ.get("COMPILETIE_RUN4")):
+        ok, log = common.ocaml_build(engine)
+        if not ok or not os.path.exists(runner):
+            ctx.correspondence_broken("compile-engine-build", log[-2000:])
+            return None
     tools = vmcheck.VmTools("plain")
     names = vmcheck.opcode_names()
     use = meaningful3(names)
@@ -355,7 +369,7 @@ def run_compiletie3(ctx, n, seed, level=3, keep=None):
         def gen(job):
             first, cnt, d = job
             cmd = "ulimit -s unlimited 2>/dev/null || ulimit -s 4000000 2>/dev/null; exec '%s' gen %d %d %d '%s' %d" % (
-                RUN3, seed, first, cnt, d, level)
+                runner, seed, first, cnt, d, level)
             rc, so, se = common.sh(["bash", "-c", cmd], timeout=900)
             return rc, se, d
 
